@@ -69,6 +69,11 @@ def gen_cases(ctx: Ctx):
             for N, T in ((2, 8), (1, 8))[:ctx.pick(1, 2)]:
                 for _ in range(ctx.pick(2, 6)):
                     cases.append(("identity", an, N, T, masked, stateful, rng.randrange(10 ** 6)))
+    # learners CONFIGURED with non-default coefficients: what their real train minimises / reports / returns
+    for an in ("PPO", "A2C", "REINFORCE"):
+        for normalize, clipv in ((False, True), (True, False), (False, False), (True, True))[:4 if an == "PPO" else 2]:
+            for _ in range(ctx.pick(1, 4)):
+                cases.append(("configured", an, normalize, clipv, rng.randrange(10 ** 6)))
     return cases
 
 
@@ -80,6 +85,9 @@ def record(case):
     if kind == "identity":
         from .. import drive_identity as di
         return dict(di.identity_case(*case[1:]), c={})
+    if kind == "configured":
+        from .. import drive_identity as di
+        return dict(di.routing_case(*case[1:]), c={})
     return {"ppo": dl.ppo_case, "a2c": dl.a2c_case, "reinforce": dl.reinforce_case}[kind](case[1])
 
 
